@@ -70,6 +70,44 @@ def _buf2(x):           # overwrite after read
     return b * b
 
 
+def _buf6(x):           # an entry holding an active value is overwritten by untraced constants (python float, numpy scalar), then used
+    b = A.zeros(3, dtype=x)
+    b[0] = x[0] * x[1]
+    b[1] = b[0] * x[2]
+    b[0] = 2.5
+    b[2] = x[1] * b[0] + A.sin(b[1])
+    b[1] = np.float64(-0.75)
+    return b * b + x
+
+
+def _buf7(x):           # a slice holding active values is overwritten by a constant array
+    b = A.zeros(3, dtype=x)
+    b[0] = x[0] * x[1]
+    b[1] = b[0] * x[2]
+    b[2] = A.cos(b[1]) * x[0]
+    b[:2] = np.array([1.5, -2.0])
+    return b * b + x * b
+
+
+def _buf8(x):           # a value obtained by operations that cancel algebraically (-(-x), x*1, x+0) is a new array: writing into it leaves x alone
+    y = -(-x)
+    y[0] = 10.0 * x[1]
+    z = x * 1.0
+    z[1] = y[0] + x[2]
+    w = x + 0.0
+    w[2] = z[1] * x[0]
+    return x * y + z * w
+
+
+def _buf9(x):           # the negative of a buffer is taken, the buffer overwritten, the negative negated again
+    b = A.zeros(3, dtype=x)
+    b[0] = x[0] * x[1]; b[1] = x[2]; b[2] = x[1]
+    n = -b
+    b[1] = A.sin(x[0])
+    z = -n
+    return z * b
+
+
 def _buf3(x):           # 2-D buffer, slices, column overwritten from other columns
     B = A.zeros((2, 3), dtype=x)
     B[0, :] = x
@@ -127,6 +165,10 @@ def catalogue():
     add('neg_op', lambda x: -x, [(V, 'R')], ['unary'])
     for r, dom in [(2, 'R'), (3, 'R'), (0, 'R'), (1, 'R'), (-1, 'nz'), (-2, 'nz'), (2.5, 'pos'), (0.5, 'pos'), (-1.5, 'pos'), (np.int64(3), 'R')]:
         add('pow_%s%s' % ('np' if isinstance(r, np.integer) else '', r), (lambda r: lambda x: x ** r)(r), [(V, dom)], ['unary', 'pow'])
+    # the exponent is itself a traced value
+    add('pow:traced_exponent', lambda a, b: a ** b, [(V, 'pos'), (V, 'R')], ['pow', 'binary', 'nopb'])
+    add('pow:traced_exponent_same_input', lambda x: (x * x + 1.5) ** x, [(V, 'R')], ['pow', 'binary', 'nopb'])
+    add('pow:traced_exponent_scalar', lambda a, b: a ** b, [(V, 'pos'), (S, 'R')], ['pow', 'binary', 'bcast', 'nopb'])
     # integer powers at base points with exact zeros (polynomials are smooth there)
     for r in (1, 2, 3, np.int64(1), np.int64(2), np.int64(4)):
         add('pow_zero_base_%s%s' % ('np' if isinstance(r, np.integer) else '', int(r)), (lambda r: lambda x: x ** r)(r), [(V, 'Rzero')], ['unary', 'pow', 'zero-base'])
@@ -173,6 +215,10 @@ def catalogue():
     add('buffer:2d_slices', _buf3, [(V, 'R')], ['buffer', 'overwrite'])
     add('buffer:view_then_overwrite', _buf4, [(V, 'R')], ['buffer', 'overwrite'])
     add('buffer:accumulate_slot', _buf5, [(V, 'R')], ['buffer', 'overwrite'])
+    add('buffer:write_into_algebraic_identity_result', _buf8, [(V, 'R')], ['buffer', 'overwrite'])
+    add('buffer:negated_twice_around_overwrite', _buf9, [(V, 'R')], ['buffer', 'overwrite'])
+    add('buffer:constant_overwrites_active_entry', _buf6, [(V, 'R')], ['buffer', 'overwrite', 'const'])
+    add('buffer:constant_array_overwrites_slice', _buf7, [(V, 'R')], ['buffer', 'overwrite', 'const'])
     # --- reductions
     add('sum', lambda x: A.sum(x), [(V, 'R')], ['reduce'])
     add('sum:matrix', lambda X: A.sum(X), [((2, 3), 'R')], ['reduce'])
@@ -180,6 +226,8 @@ def catalogue():
         add('sum:axis%d' % ax, (lambda ax: lambda X: A.sum(X, axis=ax))(ax), [((2, 3), 'R')], ['reduce', 'axis'])
     add('sum:axis1_of_3d', lambda X: A.sum(X, axis=1), [((2, 3, 2), 'R')], ['reduce', 'axis'])
     add('prod', lambda x: A.prod(x), [(V, 'nz')], ['reduce'])
+    add('prod:zero_factor', lambda x: A.prod(x), [((4,), 'Rzero')], ['reduce', 'zero-base'])
+    add('prod:zero_factor_in_some_directions', lambda x: A.prod(x), [((4,), 'Rzero_mixed')], ['reduce', 'zero-base'])          # exact zeros among the factors (in some directions only)
     add('trace', lambda X: A.trace(X), [(M, 'R')], ['reduce'])
     # --- dot / outer of every rank combination
     add('dot:vv', lambda a, b: A.dot(a, b), [(V, 'R'), (V, 'R')], ['dot'])
@@ -206,6 +254,11 @@ def catalogue():
     add('det', lambda X: A.det(_wc(X)), [(M, 'R')], ['linalg'])
     add('det:pivoting', lambda X: A.det(_wc(X)[::-1]), [(M, 'R')], ['linalg', 'pivot'])
     add('logdet', lambda X: A.logdet(_spd(X)), [(M, 'R')], ['linalg'])
+    # determinant outside the floating-point range although its logarithm is an ordinary number
+    add('logdet:det_underflows', lambda X: A.logdet(1e-120 * _spd(X)), [(M, 'R')], ['linalg', 'scale'])
+    add('logdet:det_overflows', lambda X: A.logdet(1e+120 * _spd(X)), [(M, 'R')], ['linalg', 'scale'])
+    add('inv:tiny_scale', lambda X: 1e-90 * A.inv(1e-90 * _wc(X)), [(M, 'R')], ['linalg', 'scale'])
+    add('solve:huge_scale', lambda X, B: A.solve(1e+90 * _wc(X), 1e+90 * B), [(M, 'R'), ((3, 2), 'R')], ['linalg', 'scale'])
     add('diag:vector', lambda x: A.diag(x) * np.arange(1., 10.).reshape(3, 3), [(V, 'R')], ['linalg'])
     add('diag:matrix', lambda X: A.diag(X) * np.array([1., -2., 3.]), [(M, 'R')], ['linalg'])
     add('diag:tall', lambda X: A.diag(X) * np.array([1., -2.]), [((3, 2), 'R')], ['linalg'])
